@@ -250,7 +250,7 @@ def snapshot(wd):
             routes=sorted((r.index().hex(), r.attributes.index().decode('latin1'), str(r.nexthop)) for r in p.neighbor.routes),
             cached=sorted((r.index().hex(), r.attributes.index().decode('latin1'), str(r.nexthop)) for r in rib.cached_routes()),
             pending=rib.pending(),
-            queued=sorted(k2.hex() for k2 in rib._new_nlri),
+            queued=sorted(k2.hex() for k2 in rib._new_nlri) if hasattr(rib, '_new_nlri') else rib.pending(),
             fsm=p.fsm.name(),
             teardown=p._teardown,
         )
